@@ -706,17 +706,7 @@ func (g *gen) genArgv(real *Real) []string {
 	return argv
 }
 
-func describeCase(c *Case) string {
-	var ops []string
-	for _, op := range c.Ops {
-		if op.Kind == "parse" {
-			ops = append(ops, fmt.Sprintf("parse %q", op.Args))
-		} else {
-			ops = append(ops, op.Kind)
-		}
-	}
-	return fmt.Sprintf("opts=%d handler=%s build=%d ops=[%s]", uint(c.Opts), c.Handler, len(c.Build), strings.Join(ops, "; "))
-}
+func describeCase(c *Case) string { return describeOps(c) }
 
 // GenParseCase: a full case with NParses parse operations.
 func GenParseCase(r *rand.Rand, p Profile) *Case {
